@@ -200,6 +200,14 @@ impl Monitor for C15 {
                 st.class("pool-with-several-deposits");
             }
         }
+        for (_, hashes) in ob.trace.withdrawals.iter() {
+            if hashes.len() >= 2 {
+                st.class("pool-with-several-withdrawals");
+            }
+        }
+        if ob.trace.deposits.iter().any(|d| ob.trace.withdrawals.iter().any(|w| w.0 == d.0)) {
+            st.class("pool-with-deposit-and-withdrawal-in-one-block");
+        }
         let per_pool_max = ob.trace.swaps.iter().chain(ob.trace.deposits.iter()).chain(ob.trace.withdrawals.iter()).map(|x| x.1.len()).max().unwrap_or(0);
         if per_pool_max >= 2 || (canonical + odd >= 1 && bystanders_with_key >= 1) {
             let mut d = post.pools_root.to_vec();
@@ -232,11 +240,36 @@ pub fn run(ctx: &Ctx) -> (Outcome, String, Option<bool>) {
         p.max_steps = 30;
         p.max_txs = 14;
     }
-    let out = super::hist::run_histories(ctx, "pool-histories", p, ctx.scale(1800, 18000), C15::default);
-    let rule = "Generated histories dominated by pool requests (swap 26%, deposit 18%, withdraw 14% of transactions; up to 8/14 per batch) on built-in, brand-new and emptied pools, amounts from 0 and 1 to the whole holding, pool keys in canonical and 6 alternative spellings (27% of requests), Normal/Faucet/Stake transactions carrying data that parses as a pool key, ~10% mutations (including swapped kinds). Oracle per sealed block, from the real coins and pools before and after sealing: (i) every coin of a non-request transaction is unchanged; (ii) pools (lefts, rights, liqs) and all coins equal RefSTF's exact settlement (single batch price, 995/1000 fee, floor pro-rata, sqrt liquidity, MAX_COINVAL cap) - for alternative spellings either 'ignored' or 'settled as the canonical pool' is accepted; (iii) a pool moves only in a block with a request naming it; reserve product never decreases in swap-only blocks; liquidity tokens handed out <= liquidity minted. Non-trivial = a block with >=2 requests settled on one pool, or a request next to a non-request carrying a pool key; distinct by (pool root, coin root).".to_string();
+    let mut out = super::hist::run_histories(ctx, "pool-histories", p, ctx.scale(1800, 18000), C15::default);
+    // liquidity lifecycles by construction (C16's plan shape, this check's oracle): blocks dense in deposits and
+    // withdrawals, two thirds of them kept to two pools so that several requests share a pool
+    let p2 = profile2();
+    let prof2 = p2.clone();
+    out.absorb(crate::runner::run_sharded(
+        ctx,
+        "liquidity-lifecycles",
+        ctx.scale(500, 6000),
+        move || {
+            use proptest::strategy::Strategy;
+            super::c16::arb_liquidity_plan(&prof2).prop_map(|p| super::hist::Phase2 { phase2: p })
+        },
+        |plan, st, shard| {
+            st.eval();
+            st.class("lifecycle-history");
+            crate::plan::run_plan(&plan.phase2, &p2, &mut C15::default(), st, shard)
+        },
+    ));
+    let rule = "Second phase: liquidity lifecycles by construction (a block of deposits, then 3-8 blocks mixing withdrawals, deposits, swaps and coin-splitting transactions, mostly on two pools; 20 fee coins so that many withdrawals can be built), same oracle. First phase: generated histories dominated by pool requests (swap 26%, deposit 18%, withdraw 14% of transactions; up to 8/14 per batch) on built-in, brand-new and emptied pools, amounts from 0 and 1 to the whole holding, pool keys in canonical and 6 alternative spellings (27% of requests), Normal/Faucet/Stake transactions carrying data that parses as a pool key, ~10% mutations (including swapped kinds). Oracle per sealed block, from the real coins and pools before and after sealing: (i) every coin of a non-request transaction is unchanged; (ii) pools (lefts, rights, liqs) and all coins equal RefSTF's exact settlement (single batch price, 995/1000 fee, floor pro-rata, sqrt liquidity, MAX_COINVAL cap) - for alternative spellings either 'ignored' or 'settled as the canonical pool' is accepted; (iii) a pool moves only in a block with a request naming it; reserve product never decreases in swap-only blocks; liquidity tokens handed out <= liquidity minted. Non-trivial = a block with >=2 requests settled on one pool, or a request next to a non-request carrying a pool key; distinct by (pool root, coin root).".to_string();
     (out, rule, None)
 }
 
 pub fn replay(case: &serde_json::Value) -> Check {
-    super::hist::replay_history(case, &profile(), C15::default())
+    super::hist::replay_two_phase(case, &profile(), &profile2(), C15::default())
+}
+
+pub fn profile2() -> Profile {
+    let mut p = profile();
+    p.nuggets = 20;
+    p.kind_w = [16, 8, 18, 24, 22, 2, 10, 0, 0];
+    p
 }
